@@ -522,3 +522,47 @@ def _set_value(ptype, tag):
 
 _set_value("YAMLPath", "path")
 _set_value("str", "text")
+
+
+# ---------------------------------------------------------------------------------------------------
+# delete_nodes: every match of the required driver is gathered, then all of them are handed to the deletion (C04)
+# ---------------------------------------------------------------------------------------------------
+@contract(PR + "_delete_nodes", props=["C04"])
+class DeleteGathered:
+    """ASSUMED here (which document nodes go, in which order, is checked bounded by rtc/c04): edits the document or
+    refuses with a YAMLPathException (deleting the document root)."""
+    assumed = True
+    notes = "the deletion itself (flattening of virtual results, per-sequence index sets, YAML merge keys) is bounded-only: rtc/c04"
+    modifies = ["*"]
+    raises = ["YAMLPathException"]
+    opts = {"event": "('delete', delete_nodes, len(delete_nodes))"}
+
+
+def _delete_nodes(ptype, tag):
+    @contract(PR + "delete_nodes", props=["C04"])
+    class DeleteNodes:
+        """delete_nodes yields and gathers EVERY match of the required-match driver (nothing is deleted while matches are
+        still being produced), then hands exactly the gathered list -- all of it -- to the deletion, once, and only when
+        something matched."""
+        params = {"yaml_path": ptype, "kw_pathsep": "PathSeparators"}
+        assume_fields = dict(PROC_FIELDS, **PATH_FIELDS)
+        requires = INV if ptype == "YAMLPath" else []
+        raises = ["YAMLPathException"]
+        loops = {
+            "for node_coords in self._get_required_nodes(self.data, yaml_path)": {
+                "invariant": ["len(gathered_nodes) == iters"],
+                "body_ensures": ["len(yielded) == 1 and yielded[0] is node_coords", "called('delete') == 0"]},
+        }
+        ensures = [
+            "implies(self.data is None, called('required') == 0 and called('delete') == 0)",
+            "implies(self.data is not None, called('required') == 1 and call_event('required')[1] is self.data)",
+            "implies(self.data is not None and yield_count('required') > 0, called('delete') == 1 "
+            "and call_event('delete')[1] is gathered_nodes and call_event('delete')[2] == yield_count('required'))",
+            "implies(self.data is not None and yield_count('required') == 0, called('delete') == 0)",
+        ]
+        opts = dict(SEG_INV, yields="NodeCoords")
+    DeleteNodes.__name__ = "DeleteNodes_" + tag
+
+
+_delete_nodes("YAMLPath", "path")
+_delete_nodes("str", "text")
